@@ -15,7 +15,8 @@
    [P] partial.  What is NOT proved (covered by the correspondence + the oracles of checks/c07.py only) is listed at
    C07_order_inv_partial. *)
 From AV Require Import Base.Bytes Base.Outcome Hash.HashModel Spec.SpecOps Spec.SpecReal Tree.Heap Tree.Ops Tree.Script Tree.Inv Tree.Range Tree.ValidSubs
-  Tree.SpecWF Tree.SpecWFReal Tree.RangeProofsCalc Tree.RangeProofsOps Tree.RangeProofsLoader Tree.RangeProofsReal Tree.RangeProofsParser Tree.RangeProofsNamed Tree.CopyProofsDefs Tree.RangeProofsInv Tree.Project Tree.RangeProofsProject Tree.RangeProofsReload.
+  Tree.SpecWF Tree.SpecWFReal Tree.RangeProofsCalc Tree.RangeProofsOps Tree.RangeProofsLoader Tree.RangeProofsReal Tree.RangeProofsParser Tree.RangeProofsNamed Tree.CopyProofsDefs Tree.RangeProofsInv Tree.Project Tree.RangeProofsProject Tree.RangeProofsReload
+  Tree.CompatTyped Tree.CompatHist1 Tree.CompatHist4 Tree.RangeProofsAttach Tree.RangeProofsAttachCopy.
 From AV Require Xml.Serializer Xml.StrictValidDef Xml.RoundTripFile.
 From AV Require Xml.Parser.
 Open Scope list_scope.
@@ -333,3 +334,78 @@ Proof. exact order_history_was_ordered. Qed.
 (* [F] non-vacuity: an ordered child list of the root element of the current tables *)
 Theorem C07_ordered_nonvacuous : Ordered RT real_root REAL_LATEST [Some 2055; Some 5413].
 Proof. exact real_ordered_example. Qed.
+
+(* ------------------------------------------------------------------ attaching an existing element keeps its stored type
+   (known finding C07 move-keeps-source-type, first seen by agent-c17; same root cause as copy-keeps-source-type, other
+   trigger: ONE version, ONE model, another parent) *)
+
+(* [F witness] on the current tables, in a world built by the editing calls themselves: move_element_here succeeds although the
+   destination lists the element's NAME with another datatype; the element keeps its type, one of its sub-elements is listed
+   by the stored type and not by the type the loader will give the element, so the loader cannot read what was built
+   (no LoaderWalk of depth 2 from the destination = IncorrectBeginElement on the implementation).
+   The history uses the validator of item names that accepts everything (ok_check) for the three names n1 n2 n3. *)
+Theorem C07_move_resolves_type_refuted :
+  forall (tab_el tab_en : nametab) (check_fn : N -> list N -> res bool) (root_attrs : list (N * cdata)),
+  exists (w : world) (h mv : id) (w' : world) (n nc ncc : node) (cc : id) (v : N) (et : etype) (ix : list N),
+    run_ops RT tab_el tab_en ok_check REAL_LATEST root_attrs attach_ops (mkWorld (fun _ => None) 0 [] []) = Val w /\
+    e_move_element_here RT tab_en check_fn REAL_LATEST h mv w = Val (OK mv, w') /\
+    w_nodes w' h = Some n /\ w_nodes w' mv = Some nc /\ In (CElem mv) (n_content n) /\
+    min_version REAL_LATEST h w' = Val (OK v, w') /\
+    find_sub_element RT (n_type n) (n_name nc) v = Val (Some (et, ix)) /\
+    snd (n_type nc) <> snd et /\
+    In (CElem cc) (n_content nc) /\ w_nodes w' cc = Some ncc /\
+    find_sub_element RT (n_type nc) (n_name ncc) v <> Val None /\
+    find_sub_element RT et (n_name ncc) v = Val None /\
+    ~ LoaderWalk RT 2 w' v h (n_type n).
+Proof. exact move_keeps_source_type. Qed.
+
+(* [U] when the stored types do not matter: on tables with agent-c17's fact PairOK (a datatype never lists one name with two
+   datatypes that differ below; [F] for the current tables: Tree/CompatReal.v PairOK_real) and in a world whose edges are TypedU
+   (C17's invariant: the parent's stored type lists the child's name, in some version set, with the child's stored DATATYPE),
+   every element of a set closed under sub-elements whose child lists are in the specification order of the STORED types is read
+   by the loader without complaint, to any depth, starting from any type of a related datatype: the loader's own types, which
+   it derives from the names alone, never meet a child list they do not accept or a name they do not list. *)
+Theorem C07_attach_loader_walk :
+  forall T : tables, SpecWF T -> PairOK T ->
+  forall (w : world) (v : N) (S : id -> Prop), TypedU T w -> OrdSet T w v S ->
+  forall (fuel : nat) (i : id) (n : node) (lt : etype),
+  S i -> w_nodes w i = Some n -> rel_ok T (snd lt) (snd (n_type n)) = true -> LoaderWalk T fuel w v i lt.
+Proof. exact loader_walk_of_typed. Qed.
+
+(* [U] move_element_here[_at] from another parent, under agent-c17's side condition attach_ok (the destination's type lists the
+   element's name with the element's stored datatype, for some version set): typing (C17 move_typed) and the order of EVERY
+   child list (C07_order_inv_move) are kept, hence the loader reads the destination, the moved subtree and every other element
+   of the set without complaint.  C07_move_resolves_type_refuted shows that the side condition cannot be dropped. *)
+Theorem C07_move_typed_loader_accepts :
+  forall (T : tables) (tab_en : nametab) (check_fn : N -> list N -> res bool) (LATEST : N), SpecWF T -> PairOK T ->
+  forall (h mv : id) (n mn : node) (ms m vs v : N) (w : world) (c : id) (w' : world) (S : id -> Prop),
+  w_nodes w h = Some n -> w_nodes w mv = Some mn -> n_parent mn <> PElem h ->
+  model_of mv w = Val (OK ms, w) -> model_of h w = Val (OK m, w) ->
+  min_version LATEST mv w = Val (OK vs, w) -> min_version LATEST h w = Val (OK v, w) ->
+  Bounded w -> TypedU T w -> attach_ok T w h mv ->
+  OrdSet T w v S -> S h -> S mv ->
+  (exists pos, e_move_element_here_at T tab_en check_fn LATEST h mv pos w = Val (OK c, w')) \/
+  e_move_element_here T tab_en check_fn LATEST h mv w = Val (OK c, w') ->
+  Bounded w' /\ TypedU T w' /\ OrdSet T w' v S /\
+  forall (fuel : nat) (i : id) (ni : node) (lt : etype),
+    S i -> w_nodes w' i = Some ni -> rel_ok T (snd lt) (snd (n_type ni)) = true -> LoaderWalk T fuel w' v i lt.
+Proof. exact move_attach_walk. Qed.
+
+(* [U] create_copied_sub_element[_at] of an element of the same ordered set, under attach_ok: the set grows by the copy (S' c)
+   and everything below it; typing (C17 copy_typed), the destination's order (C07_order_inv_copy) and the order of every node of
+   the copy (its child list is, name by name, a sub-sequence of its source's: C13's characterisation of deep_copy) hold, hence
+   the loader reads all of it without complaint. *)
+Theorem C07_copy_typed_loader_accepts :
+  forall (T : tables) (LATEST : N), SpecWF T -> PairOK T ->
+  forall (h other : id) (n o : node) (m v : N) (w : world) (c : id) (w' : world) (S : id -> Prop),
+  Closed w -> w_nodes w h = Some n -> w_nodes w other = Some o ->
+  model_of h w = Val (OK m, w) -> min_version LATEST h w = Val (OK v, w) ->
+  TypedU T w -> attach_ok T w h other ->
+  OrdSet T w v S -> S h -> S other ->
+  (exists pos, e_create_copied_sub_element_at T LATEST h other pos w = Val (OK c, w')) \/
+  e_create_copied_sub_element T LATEST h other w = Val (OK c, w') ->
+  exists S' : id -> Prop, (forall i, S i -> S' i) /\ S' c /\
+  Bounded w' /\ TypedU T w' /\ OrdSet T w' v S' /\
+  forall (fuel : nat) (i : id) (ni : node) (lt : etype),
+    S' i -> w_nodes w' i = Some ni -> rel_ok T (snd lt) (snd (n_type ni)) = true -> LoaderWalk T fuel w' v i lt.
+Proof. exact copy_attach_walk. Qed.
